@@ -58,3 +58,61 @@ if "## 7. Which checks catch which changes" in s:
     s = s[: s.index("\n\n## 7. Which checks catch which changes")]
 open(p, "w").write(s + sec)
 print("section 7 regenerated:", n, "seeded,", len(d), "mutants")
+
+
+def bounds_section():
+    """Section 8: what the committed evidence files say was actually run (quick tier)."""
+    import glob
+    rows = ["| property | cases | distinct non-trivial | parts (cases; * = finite sub-domain enumerated completely) | wall s |", "|---|---|---|---|---|"]
+    for f in sorted(glob.glob(os.path.join(HERE, "evidence", "C*.json"))):
+        e = json.load(open(f))
+        c = e["coverage"]
+        parts = "; ".join(f"{k} {v['evaluations']}{'*' if v.get('exhaustive') else ''}" for k, v in c.get("parts", {}).items())
+        rows.append(f"| {e['property_id']} ({e['tier']}, seed {e['seed']}) | {c['evaluations']} | {c['distinct_nontrivial']} | {parts} | {e['wall_s']} |")
+    return NL.join(rows)
+
+
+THOROUGH_LOG = """| property | thorough tier, seed 1 (background run on this machine) |
+|---|---|
+| C01 | 400 704 cases, 315 371 distinct non-trivial, 225 s (+ atheris decoded-values campaign added later) |
+| C02 | 169 292 cases, 89 770 distinct non-trivial, 324 s (+ all three-cut chunkings and bulk cases added later) |
+| C03 | 400 704 cases, 346 077 distinct non-trivial, 198 s |
+| C04 | 320 000 cases, 192 182 distinct non-trivial, 153 s |
+| C05 | 7 043 028 cases (6.4 M of them atheris executions in 16 campaigns), 2 325 099 distinct non-trivial, 1127 s |
+| C06 | 320 000 cases, 232 769 distinct non-trivial, 425 s |
+| C07 | 1 155 889 cases, 746 201 distinct non-trivial, 132 s |
+| C08 | 480 000 histories, 334 864 distinct non-trivial, 1049 s |
+| C09 | 240 000 histories, 78 357 distinct non-trivial, 348 s |
+| C10 | 480 000 histories, 251 190 distinct non-trivial, 937 s |
+| C11 | 160 000 joint histories, 47 140 distinct non-trivial, 214 s |
+| C12 | 640 000 histories, 120 795 distinct non-trivial, 558 s |
+| C13 | 963 328 cases, 779 450 distinct non-trivial, 754 s |
+| C14 | 800 000 sentences, 276 182 distinct non-trivial, 533 s |
+| C15 | 10 898 548 cases (8 M atheris executions), 7 452 924 distinct non-trivial, 824 s |
+| C16 | 481 608 cases, 419 945 distinct non-trivial, 355 s |
+| C17 | 3 360 000 cases (2.4 M atheris executions), 826 182 distinct non-trivial, 685 s |
+| C18 | 662 089 families, 355 770 distinct non-trivial, 4378 s - found defect 19 (two buckets, one root cause), see §3 |
+| C19 | 240 032 cases, 174 097 distinct non-trivial, 824 s |"""
+
+s = open(p).read()
+if "## 8. Bounds actually run" in s:
+    s = s[: s.index("\n\n## 8. Bounds actually run")]
+s += f"""
+
+## 8. Bounds actually run
+
+Quick tier, from the committed evidence files (written by the checks themselves, `evidence/<id>.json`):
+
+{bounds_section()}
+
+Thorough tier (every check was run once in the thorough tier during the build; all exited 0 except C18, whose two
+buckets were a genuine defect that was then repaired; thorough evidence is not committed because the evidence file of a
+property is rewritten by every run and the committed one is the quick run):
+
+{THOROUGH_LOG}
+
+Every quick check was additionally run at VERIF_SEED = 2, 3, 5, 8, 13 and 21..28 on the repaired tree in background
+snapshots; the only alarm was the harness false alarm at seed 8 described in §6.4 (corrected).
+"""
+open(p, "w").write(s)
+print("section 8 regenerated")
